@@ -37,7 +37,7 @@ def sample_of(sc):
 
 
 def trace_check(prop, tier, seed, scenarios, mcs, level_note_extra=None, run_timeout=180, trace_level="full",
-                extra_judge=None, nontrivial=None, max_steps=None, pairwise=True):
+                extra_judge=None, nontrivial=None, max_steps=None, pairwise=True, level="model_checking"):
     t0 = time.time()
     mc = run_mc_list(mcs, tier) if mcs else {"states": 0, "distinct": 0, "instances": []}
     # every trace check also runs its share of the pairwise covering array over the configuration dimensions (scenlib.pairwise_cases): one
@@ -108,7 +108,7 @@ def trace_check(prop, tier, seed, scenarios, mcs, level_note_extra=None, run_tim
         "known_findings_hit": V.known_hits,
         "exhaustive": False,
     }
-    C.write_evidence(prop, tier, seed, "model_checking", cov, time.time() - t0, len(V.new),
+    C.write_evidence(prop, tier, seed, level, cov, time.time() - t0, len(V.new),
                      assumptions=["TLC 1.8 / CommunityModules Json", "harness projection (float -> 1e-12 fixed point, digests)",
                                   "stage functions looked up by name in aquacrop.timestep.run_single_timestep",
                                   "pandas 3 / numpy 2 semantics of this sandbox"] + (level_note_extra or []))
